@@ -22,6 +22,7 @@ import (
 	"strings"
 	"time"
 
+	"github.com/sourcenetwork/corekv"
 	"github.com/sourcenetwork/immutable"
 	"github.com/sourcenetwork/lens/host-go/config/model"
 
@@ -96,6 +97,7 @@ type world struct {
 	restarts int
 	inflight bool            // the node was closed without waiting for its pushes
 	everSet  map[string]bool // "target/collection" ever configured by a replicator set
+	copies   int
 }
 
 func (w *world) opts(i *inst) []node.Option {
@@ -202,7 +204,34 @@ func gqlInput(js string) string {
 }
 
 // full logical dump of one node
+// dump: full logical dump of one node (database and peer configuration)
 func (w *world) dump(i *inst) (full string, abstract string) {
+	return w.dumpOf(i, true)
+}
+
+// peerstore: the raw peer configuration records (P2P collections, replicators) as the store holds them
+func (w *world) peerstore(i *inst) string {
+	it, err := i.n.DB.Rootstore().Iterator(w.ctx, corekv.IterOptions{Prefix: []byte("/db/ps")})
+	must(err)
+	var out []string
+	for {
+		ok, err := it.Next()
+		if err != nil || !ok {
+			break
+		}
+		k := string(it.Key())
+		if strings.Contains(k, "/retry") {
+			continue // retry bookkeeping changes in the background
+		}
+		v, _ := it.Value()
+		out = append(out, fmt.Sprintf("%s=%x", k, v))
+	}
+	_ = it.Close()
+	sort.Strings(out)
+	return strings.Join(out, ";")
+}
+
+func (w *world) dumpOf(i *inst, withPeer bool) (full string, abstract string) {
 	ctx := w.ctx
 	var sb strings.Builder
 	cols, err := i.n.DB.GetCollections(ctx, client.CollectionFetchOptions{IncludeInactive: immutable.Some(true)})
@@ -249,6 +278,10 @@ func (w *world) dump(i *inst) (full string, abstract string) {
 	sb.WriteString("GQLTYPES " + w.gqlTypes(i) + "\n")
 	commits := gql(identity.WithContext(ctx, immutable.Some(w.owner)), i, `query { commits(order: {cid: ASC}) { cid docID fieldName height } }`)
 	sb.WriteString("COMMITS " + commits + "\n")
+	if !withPeer {
+		sb.WriteString("PEERSTORE " + w.peerstore(i) + "\n")
+		return sb.String(), ""
+	}
 	p2p, err := i.n.Peer.GetAllP2PCollections(ctx)
 	must(err)
 	sort.Strings(p2p)
@@ -665,6 +698,10 @@ func runCase(ctx context.Context, out *vc.Out, base string, lines []string) {
 			w.open(w.real)
 			w.restarts++
 			res = "ok"
+		case "crashcopy":
+			// the store contents as of this completed operation, copied while the node keeps running, opened by a
+			// second node: same collections, indexes, documents, history and peer configuration records
+			res = w.crashCopy()
 		case "dump":
 			fa, abs := w.dump(w.real)
 			fb, _ := w.dump(w.twin)
@@ -687,6 +724,63 @@ func runCase(ctx context.Context, out *vc.Out, base string, lines []string) {
 		out.Emit(l, res)
 		out.Count(t[0])
 	}
+}
+
+func copyTree(src, dst string) error {
+	return filepath.Walk(src, func(p string, info os.FileInfo, err error) error {
+		if err != nil {
+			return err
+		}
+		rel, _ := filepath.Rel(src, p)
+		if info.IsDir() {
+			return os.MkdirAll(filepath.Join(dst, rel), 0o755)
+		}
+		if info.Name() == "LOCK" {
+			return nil
+		}
+		b, err := os.ReadFile(p)
+		if err != nil {
+			return err
+		}
+		return os.WriteFile(filepath.Join(dst, rel), b, 0o644)
+	})
+}
+
+func (w *world) crashCopy() string {
+	w.awaitDelivered(w.real)
+	var lastErr string
+	for attempt := 0; attempt < 2; attempt++ {
+		dir := filepath.Join(w.base, fmt.Sprintf("c%d-copy%d", w.caseID, w.copies))
+		w.copies++
+		if err := copyTree(w.real.dir, dir); err != nil {
+			lastErr = "copy:" + short(err)
+			_ = os.RemoveAll(dir)
+			continue
+		}
+		cp := &inst{dir: dir, priv: w.real.priv}
+		opts := append(w.opts(cp), node.WithDisableP2P(true))
+		n, err := node.New(w.ctx, opts...)
+		if err == nil {
+			err = n.Start(w.ctx)
+		}
+		if err != nil {
+			lastErr = "open:" + short(err)
+			_ = os.RemoveAll(dir)
+			continue
+		}
+		cp.n = n
+		fa, _ := w.dumpOf(w.real, false)
+		fb, _ := w.dumpOf(cp, false)
+		_ = n.Close(w.ctx)
+		_ = os.RemoveAll(dir)
+		if fa != fb {
+			w.out.Oracle(w.out.Lines, fmt.Sprintf("[crash-copy-differs] case %d: a node opened on a copy of the store taken after a completed operation differs from the running node: %s", w.caseID, firstDiff(fa, fb)))
+			return "DIFF"
+		}
+		return "same"
+	}
+	w.out.Oracle(w.out.Lines, fmt.Sprintf("[crash-copy-differs] case %d: a copy of the store taken after a completed operation can not be opened: %s", w.caseID, lastErr))
+	return "unopenable"
 }
 
 func clip(s string, n int) string {
@@ -799,13 +893,17 @@ func genCase(r *vc.Rng, id uint64) []string {
 		case x == 17 || x == 18:
 			lines = append(lines, fmt.Sprintf("replicator %s %s %s", []string{"set", "set", "del"}[r.Intn(3)], []string{"X", "Y"}[r.Intn(2)], have[r.Intn(len(have))]))
 		default:
-			lines = append(lines, "restart")
-			if r.Chance(1, 2) {
-				lines = append(lines, "dump")
+			if r.Chance(1, 3) {
+				lines = append(lines, "crashcopy")
+			} else {
+				lines = append(lines, "restart")
+				if r.Chance(1, 2) {
+					lines = append(lines, "dump")
+				}
 			}
 		}
 	}
-	lines = append(lines, "restart", "dump")
+	lines = append(lines, "crashcopy", "restart", "dump")
 	// and the twin must keep behaving the same: a few more operations after the last restart
 	if len(have) > 0 {
 		t := have[r.Intn(len(have))]
